@@ -159,7 +159,7 @@ TPost ==
 
 TDeliver ==
   /\ pc = "deliver" /\ Rec.e = "Deliver"
-  /\ Mark(DeliverClauses(Filt, DetMap, pres, posts, Rec.steps))
+  /\ Mark(DeliverClauses(Filt, DetMap, pres, posts, Rec.steps) \cup DsoClauses(Rec))
   /\ Bump("delivered", Len(Rec.steps))
   /\ UNCHANGED <<pc, cfg, zero, slot, inits, born, finished, prims, pres, posts, led, lastgen, hang, tal>>
 
